@@ -40,7 +40,7 @@ def main():
         st = common.ProofStatus()
     else:
         try:
-            st = common.prepare(prop, getattr(mod, 'EXTRA_TARGETS', ()))
+            st = common.prepare(prop, getattr(mod, 'EXTRA_TARGETS', ()), getattr(mod, 'EXTRA_EXTRACTORS', ()))
         except Exception:
             traceback.print_exc()
             print(f'INFRASTRUCTURE: build step failed for {prop}')
@@ -57,14 +57,14 @@ def main():
     ctx = Ctx()
     ctx.prop, ctx.tier, ctx.seed = prop, args.tier, seed
     ctx.rng = random.Random(seed * 1000003 + int(prop[1:]))
-    ctx.driver = common.Driver()
+    ctx.driver = common.Driver(prop)
     ctx.status = st
     ctx.widen = False
     ctx.known = common.known_findings(prop)
     ctx.replay = args.replay
     ctx.t0 = t0
 
-    if not st.model_ok and not common.DRIVER.exists():
+    if not st.model_ok and not common.driver_exe(prop).exists():
         print('INFRASTRUCTURE: the Lean driver does not build and no earlier binary exists')
         print(st.model_log[-3000:])
         return 2
